@@ -82,6 +82,24 @@ func Gen(t *rapid.T, g GenCfg) []Op {
 		ops = append(ops, Op{Op: stack.Op{Kind: "assoc", Peer: a, Node: a, Sess: -1}},
 			Op{Op: stack.Op{Kind: "mod", Peer: b, Sess: second}})
 	}
+	// second scripted core (1 in 5, with reports): one node has two sessions, both raise a downlink data notification, the SMF
+	// answers the first one with SEID 0 (or normally) while the second is still unanswered - several of the UPF's own requests
+	// outstanding at once, answered out of step
+	if g.Reports && rapid.IntRange(0, 4).Draw(t, "core2") == 0 {
+		a := 0
+		var two []int
+		for k := 0; k < 2; k++ {
+			cpNext[a]++
+			ops = append(ops, Op{Op: stack.Op{Kind: "est", Peer: a, Node: a, Sess: -1, CP: 0x4000 + cpNext[a], Rules: g.Rules.GenRules(t, true)}})
+			two = append(two, nsess)
+			nsess++
+		}
+		for _, sx := range two {
+			ops = append(ops, Op{Op: stack.Op{Kind: "report", Sess: sx, DLDR: true, PDR: 1, Action: 0x0c, Payload: []byte("pkt-core2")}})
+		}
+		ops = append(ops, Op{Op: stack.Op{Kind: "rsp", Peer: a, Sess: -1, SEID0: rapid.IntRange(0, 3).Draw(t, "core2_seid0") != 0}},
+			Op{Op: stack.Op{Kind: "mod", Peer: a, Sess: two[1]}}, Op{Op: stack.Op{Kind: "mod", Peer: a, Sess: two[0]}})
+	}
 	for i := 0; i < n; i++ {
 		switch rapid.SampledFrom(kinds).Draw(t, "op") {
 		case "assoc":
